@@ -196,6 +196,9 @@ class Agent(dbus.service.Object):
             return True
 
         for hdl in tuple(self._handlers):
+            if hdl.get_session_state() == 'ending':
+                # already terminating, its transfers finish first
+                continue
             try:
                 hdl.terminate()
             except RuntimeError:
